@@ -12,6 +12,7 @@ GNext ==
   \* the same transaction, but the client's socket is reset right after it sent the statement: the pooler must treat
   \* the servers exactly as if the client were still there
   \/ \E r \in Requests : (\E o \in Orders : Tx(r, o)) /\ H([op |-> "tx_abandon", s |-> "", a |-> r])
+  \/ \E s \in Servers : (~\E i \in 1..Len(hist) : hist[i].op = "hold") /\ Hold(s) /\ H([op |-> "hold", s |-> s, a |-> ""])
 GSpec == Init /\ hist = <<>> /\ [][GNext]_gv
 Emit == (nops = MaxOps) => PrintT(<<"SCENARIO", ToJson(hist)>>)
 =============================================================================
